@@ -628,7 +628,7 @@ def _table_merger(ctx, f):
     wt = T.of(w.test)
     c = callee_of(wt)
     inner = c[1][0] if c and c[0] == "builtins.len" and c[1] else wt
-    if wt[0] == "cmp" and wt[1] == ">" and wt[3] == ("const", 0):
+    if wt[0] == "cmp" and wt[1] in (">", "!=") and wt[3] == ("const", 0):
         c2 = callee_of(wt[2])
         inner = c2[1][0] if c2 and c2[0] == "builtins.len" else wt[2]
     ok_w = inner[0] == "var" and inner[1] in (ITERS, ROWS, VALS)
@@ -636,15 +636,38 @@ def _table_merger(ctx, f):
               "merge loops until no reader is left",
               f"loop condition is '{ast.unparse(w.test)}'", node=w)
     # row iterators traverse every chunk completely
-    nested = f.nested.get("row_iterator_from_chunked")
-    ctx.require(nested is not None, f"{f.qual}: row_iterator_from_chunked "
-                "not found")
-    loops = [n for n in ast.walk(nested.node) if isinstance(n, ast.For)]
-    ok_n = len(loops) == 2 and not any(
-        isinstance(n, (ast.Break, ast.Return, ast.If))
-        for n in ast.walk(nested.node)) and any(
-        isinstance(n, ast.Yield) for n in ast.walk(loops[1]))
-    ctx.check(ok_n, "C14b-complete-traversal", nested,
+    # where does each reader's row stream come from?
+    inits = [T.of_def(d) for d in du.defs if d.name == ITERS
+             and d.kind == "assign"]
+    ctx.require(len(inits) == 1 and inits[0][0] == "comp" and len(
+        inits[0][3]) == 1 and not inits[0][3][0][2],
+        f"{f.qual}: list of per-reader row streams not recognised")
+    src = inits[0][2]
+    ok_n = False
+    where = f.node
+    why = f"row stream of a reader is {show(src, 120)}"
+
+    def complete_gen(t):
+        """(row for chunk in CHUNKS for row in g(chunk)) without filters"""
+        return t[0] == "comp" and t[1] == "gen" and len(t[3]) == 2 and \
+            not t[3][0][2] and not t[3][1][2] and t[2][0] == "elem"
+
+    if src[0] == "call" and src[1] in ctx.prog.funcs:
+        nested = ctx.prog.funcs[src[1]]
+        where = nested.node
+        if any(isinstance(n, ast.Yield) for n in ast.walk(nested.node)):
+            loops = [n for n in ast.walk(nested.node)
+                     if isinstance(n, ast.For)]
+            ok_n = len(loops) == 2 and not any(
+                isinstance(n, (ast.Break, ast.Return, ast.If))
+                for n in ast.walk(nested.node)) and any(
+                isinstance(n, ast.Yield) for n in ast.walk(loops[1]))
+        else:
+            rs = Terms(DefUse(ctx.prog, nested)).returns()
+            ok_n = len(rs) == 1 and complete_gen(rs[0][1])
+    elif complete_gen(src):
+        ok_n = True
+    ctx.check(ok_n, "C14b-complete-traversal", f,
               "every row of every chunk of every reader is offered to the "
-              "merge", "nested chunk/row loops are not complete",
-              node=nested.node)
+              "merge", "nested chunk/row loops are not complete: " + why,
+              node=where)
